@@ -10,6 +10,7 @@ import (
 	"math/big"
 	"math/rand"
 	"os"
+	"sync"
 	"path/filepath"
 	"time"
 
@@ -272,6 +273,9 @@ type recEvent struct {
 
 type recProcessor struct {
 	events []recEvent
+	// onFirstInsert (optional) runs inside the first InsertRevokedCertificate callback: whatever else the process does while this
+	// read is under way
+	onFirstInsert func()
 }
 
 func (p *recProcessor) StartUpdateCrl(m *crlreader.CRLMetaInfo) error {
@@ -280,6 +284,10 @@ func (p *recProcessor) StartUpdateCrl(m *crlreader.CRLMetaInfo) error {
 	return nil
 }
 func (p *recProcessor) InsertRevokedCertificate(e *crlreader.CRLEntry) error {
+	if f := p.onFirstInsert; f != nil {
+		p.onFirstInsert = nil
+		f()
+	}
 	cp := *e.RevokedCertificate
 	p.events = append(p.events, recEvent{Kind: "insert", Ent: &cp, Iss: e.Issuer.String()})
 	return nil
@@ -297,8 +305,11 @@ type readOutcome struct {
 	Events []recEvent
 }
 
-func readWithRealReader(path string) (out readOutcome) {
-	p := &recProcessor{}
+func readWithRealReader(path string) (out readOutcome) { return readWithRealReaderDuring(path, nil) }
+
+// readWithRealReaderDuring: during runs in the middle of the read (inside the consumer's first entry callback).
+func readWithRealReaderDuring(path string, during func()) (out readOutcome) {
+	p := &recProcessor{onFirstInsert: during}
 	defer func() {
 		if r := recover(); r != nil {
 			out.Panic = fmt.Sprint(r)
@@ -469,6 +480,87 @@ func runReaderCase(c *vk.Ctx, rc rdCase, sh rdShape, dir string) {
 	}
 }
 
+// c06Overlapping: two instances of CrlReader.tla share no variable - a read is not alone in the process (a handshake loads one list
+// while the ticker refreshes another, two handshakes name different distribution points), and what one read reports is a function
+// of its own bytes only. Pairs of accepted documents with the same signature algorithm are read (a) nested: the second one
+// completely inside the first one's entry callback, in both orders after earlier reads have completed, (b) by two goroutines that
+// start together. Every read is judged exactly like a read that is alone (events, reference decoder, digest).
+func c06Overlapping(c *vk.Ctx, cases []rdCase, rng *rand.Rand, dir string) int {
+	var withEntries []rdCase
+	for _, rc := range cases {
+		if rc.St == "Done" && len(rc.Doc.List.Es) > 0 {
+			withEntries = append(withEntries, rc)
+		}
+	}
+	if len(withEntries) < 2 {
+		return 0
+	}
+	type built struct {
+		rc   rdCase
+		sh   rdShape
+		b    *derbuild.Built
+		path string
+	}
+	mk := func(i int, alg string) *built {
+		rc := withEntries[rng.Intn(len(withEntries))]
+		sh := readerShapes(c, rng, i)
+		sh.Alg, sh.Huge, sh.Align = alg, "", "none"
+		b, err := buildAligned(rc.Doc, sh)
+		if err != nil {
+			return nil
+		}
+		path := filepath.Join(dir, fmt.Sprintf("overlap-%d.crl", i%2))
+		os.WriteFile(path, encode(b.DER, sh.Enc), 0o644)
+		return &built{rc, sh, b, path}
+	}
+	judge := func(how string, x *built, out readOutcome) {
+		rep := map[string]any{"doc": x.rc.Doc, "shape": x.sh, "overlap": how, "real": map[string]any{"err": out.Err, "panic": out.Panic}}
+		switch {
+		case out.Panic != "":
+			c.Violation("reader:overlap:panic:"+how, "ReadCRL panicked on a well-formed CRL while another read was under way: "+out.Panic, rep)
+		case out.Err != "":
+			c.Violation("reader:overlap:rejects-wellformed:"+how, "a well-formed CRL is rejected while another read is under way: "+out.Err, rep)
+		default:
+			if got, want := normEvents(abstractEvents(out.Events, x.sh.Rep)), normEvents(x.rc.Events); got != want {
+				c.Violation("reader:overlap:events-differ:"+how, fmt.Sprintf("callbacks %s differ from the specification's %s", got, want), rep)
+			} else if why := referenceCheck(x.b.DER, derbuild.Algs[x.sh.Alg], out); why != "" {
+				c.Violation("reader:overlap:reference-disagrees:"+how, why+" (while another read was under way)", rep)
+			}
+		}
+	}
+	n := 0
+	for round := 0; round < c.Pick(24, 400) && c.Violations() <= 10; round++ {
+		alg := supportedAlgs[round%len(supportedAlgs)]
+		x, y := mk(round*2, alg), mk(round*2+1, alg)
+		if x == nil || y == nil {
+			continue
+		}
+		// (a) nested
+		var inner readOutcome
+		outer := readWithRealReaderDuring(x.path, func() { inner = readWithRealReader(y.path) })
+		judge("nested-outer", x, outer)
+		judge("nested-inner", y, inner)
+		c.Eval(fmt.Sprintf("overlap|nested|%s|%d", alg, round))
+		n += 2
+		// (b) two goroutines
+		if round%3 == 0 {
+			var ox, oy readOutcome
+			start := make(chan struct{})
+			var wg sync.WaitGroup
+			wg.Add(2)
+			go func() { defer wg.Done(); <-start; ox = readWithRealReader(x.path) }()
+			go func() { defer wg.Done(); <-start; oy = readWithRealReader(y.path) }()
+			close(start)
+			wg.Wait()
+			judge("parallel", x, ox)
+			judge("parallel", y, oy)
+			c.Eval(fmt.Sprintf("overlap|parallel|%s|%d", alg, round))
+			n += 2
+		}
+	}
+	return n
+}
+
 func readerShapes(c *vk.Ctx, rng *rand.Rand, i int) rdShape {
 	algs := supportedAlgs
 	sh := rdShape{Alg: algs[i%len(algs)], Enc: []string{"der", "pem", "pemcrlf"}[i%3], Rep: []int{1, 1, 40, 130}[i%4], Width: shapeWidths[i%len(shapeWidths)], BigExt: i%2 == 0, Align: "none"}
@@ -569,9 +661,10 @@ func C06(c *vk.Ctx) {
 			}
 		}
 	}
+	n += c06Overlapping(c, cases, rng, dir)
 	c.Set("traces_validated_against_impl", int64(n))
 	c.Set("exhaustive", true)
 	c.Set("spec", "CrlReader.tla (BoundByTbs = TRUE, MaxEntries = 2): all 396 documents of the bounded RFC 5280 grammar; invariants Agree (events and hashed elements equal the reference semantics), RejectsOutOfProfile, DigestExact, OneResident")
-	c.Set("rule", "a case is (abstract document, shape) materialised by derbuild with a real signature and read by the real StreamingCRLFileReader with a recording consumer; compared with (1) the specification's event sequence and accept/reject, (2) a whole-document decoder (encoding/asn1 into pkix.CertificateList) for serials, dates, entry extensions, issuer, update times, CRL number, and the digest of TBSCertList.Raw under the declared hash; shapes: signature algorithm, DER/PEM-LF/PEM-CRLF, block replication 1/40/130 (5000 thorough), serial width, 2- and 3-byte extension lengths, alignment of an entry / crlExtensions / outer algorithm / signature at 4096k+delta")
+	c.Set("rule", "a case is (abstract document, shape) materialised by derbuild with a real signature and read by the real StreamingCRLFileReader with a recording consumer; compared with (1) the specification's event sequence and accept/reject, (2) a whole-document decoder (encoding/asn1 into pkix.CertificateList) for serials, dates, entry extensions, issuer, update times, CRL number, and the digest of TBSCertList.Raw under the declared hash; shapes: signature algorithm, DER/PEM-LF/PEM-CRLF, block replication 1/40/130 (5000 thorough), serial width, 2- and 3-byte extension lengths, alignment of an entry / crlExtensions / outer algorithm / signature at 4096k+delta; reads that overlap (a second document read inside the first one's entry callback, and pairs read by two goroutines at once) are each judged like a read that is alone")
 	c.Assume("the model enumerates structure (which optional parts exist, entry flags), bytes inside a class are seeded; encode/decode fidelity is decided by the differential oracle, not by TLC")
 }
